@@ -701,7 +701,21 @@ func textProbes(t []byte, res *core.RunResult) {
 func checkParseErrorPos(text []byte, full *lexScan, res *core.RunResult) {
 	verifhook.BeginOp(int64(c04BudgetA) + int64(c04BudgetB)*int64(len(text)))
 	var err error
-	pan := core.Guard(func() { _, err = influxql.ParseQuery(string(text)) })
+	// all three entry points quote positions; rotate over them by text
+	entry := int(core.Hash64(string(text)) % 3)
+	parse := func(t string) error {
+		switch entry {
+		case 1:
+			_, e := influxql.ParseStatement(t)
+			return e
+		case 2:
+			_, e := influxql.ParseExpr(t)
+			return e
+		}
+		_, e := influxql.ParseQuery(t)
+		return e
+	}
+	pan := core.Guard(func() { err = parse(string(text)) })
 	res.Steps += verifhook.EndOp()
 	if pan != nil || err == nil {
 		return
@@ -715,7 +729,7 @@ func checkParseErrorPos(text []byte, full *lexScan, res *core.RunResult) {
 	// copy of the text and compare the first error with its snapshot
 	snapPos, snapMsg := pe.Pos, pe.Error()
 	verifhook.BeginOp(int64(c04BudgetA) + int64(c04BudgetB)*int64(len(text)+2))
-	core.Guard(func() { _, _ = influxql.ParseQuery("\n " + string(text)) })
+	core.Guard(func() { _ = parse("\n " + string(text)) })
 	res.Steps += verifhook.EndOp()
 	if pe.Pos != snapPos || pe.Error() != snapMsg {
 		res.Violate("parse-error-mutated-later", fmt.Sprintf("a ParseError returned earlier (%q) changed after a later failing parse: now %q\ntext=%s", snapMsg, pe.Error(), strconv.QuoteToASCII(string(text))))
